@@ -309,6 +309,41 @@ type c18PageCheck struct {
 func init() {
 	runners["C18"] = func(c *Ctx) {
 		c.Rule = "component trees: distinct = (root kind, node count bucket, has hostile raw sink); pages: distinct = (page kind, visibility, taint hits)"
+		// ---- which sink every page component feeds (go/ast, the same list the Lean obligation
+		// raw_sinks_fed_by_literals is about) — into the evidence
+		{
+			raw := map[string]bool{}
+			for _, p := range c18CoreParams() {
+				if p.Raw {
+					raw[p.Name] = true
+				}
+			}
+			var fed []string
+			for _, sc := range c18SinkCalls() {
+				c.Count("sink:" + sc.Sink + "<-" + sc.Class)
+				if (raw[sc.Sink] || strings.HasPrefix(sc.Sink, "html.") || sc.Sink == "q.Write") && sc.Class == "expr" {
+					fed = append(fed, sc.File+" "+sc.Sink+"("+sc.Expr+")")
+				}
+			}
+			c.Notes = append(c.Notes, "raw sinks fed by non-literal expressions (each on the Lean allow-list with a reason): "+strings.Join(fed, "; "))
+			// the same judgement the obligation raw_sinks_fed_by_literals makes, readable
+			if outs, err := c18LeanBatch(c.Driver, []string{"sinkcheck"}); err == nil && len(outs) == 1 {
+				byID := map[string]c18SinkCall{}
+				for _, sc := range c18SinkCalls() {
+					byID[fmt.Sprint(sc.ID())] = sc
+				}
+				if i := strings.Index(outs[0], "offending="); i >= 0 && len(outs[0]) > i+10 {
+					for _, id := range strings.Split(outs[0][i+10:], ",") {
+						sc := byID[id]
+						c.Oracle("", "a raw sink is fed by an expression that can carry file data and is not on the allow-list (or an unknown sink is used)",
+							map[string]string{"file": sc.File, "function": sc.Func, "sink": sc.Sink, "argument": sc.Expr}, sc.Class, "a literal, or an allow-list entry with a reason in Model/HtmlSinks.lean")
+					}
+				}
+				if strings.Contains(outs[0], "raw-params=0") {
+					c.Oracle("", "the set of raw string parameters of html/core differs from the raw sinks of the model", map[string]string{"see": "Generated/Sinks.lean coreStringParams"}, outs[0], "raw-params=1")
+				}
+			}
+		}
 		// ---- (T) text-level functions
 		for _, s := range c18DataPool {
 			c.Tie("text "+hexs(s), hexs(c18Render(core.NewText(s))))
@@ -392,6 +427,24 @@ func init() {
 			}
 		}
 
+		{ // how the token variants were spread over the value kinds
+			kinds, pairs := map[string]bool{}, 0
+			for k := range cover {
+				if strings.HasPrefix(k, "variant:") {
+					pairs++
+					kinds[strings.SplitN(k[8:], "/", 2)[0]] = true
+				}
+			}
+			c.Notes = append(c.Notes, fmt.Sprintf("taint variants: %d of %d (value kind x special-character set) combinations generated, %d value kinds x %d variants (all five, each single character, each pair, an attribute-injection payload)",
+				pairs, len(kinds)*len(c18Variants), len(kinds), len(c18Variants)))
+			for _, ch := range []string{"<", ">", "\"", "'", "&"} {
+				for k := range kinds {
+					if cover["variant:"+k+"/"+ch] == 0 && !c.Quick() {
+						c.Untied = append(c.Untied, "no "+k+" value carried the single character "+ch)
+					}
+				}
+			}
+		}
 		var hk []string
 		for k := range seenHit {
 			hk = append(hk, k)
@@ -461,6 +514,30 @@ func c18Minimize(job *c18Job, id int, key string) string {
 	return ""
 }
 
+// c18InjectedAttrs lists the element.attribute pairs of the page that its twin does not have.
+func c18InjectedAttrs(page, twin string) []string {
+	set := func(s string) map[string]bool {
+		m := map[string]bool{}
+		if i := strings.Index(s, "attrs="); i >= 0 {
+			for _, p := range strings.Split(s[i+6:], ",") {
+				if p != "" {
+					m[p] = true
+				}
+			}
+		}
+		return m
+	}
+	a, b := set(page), set(twin)
+	var out []string
+	for p := range a {
+		if !b[p] {
+			out = append(out, p)
+		}
+	}
+	sort.Strings(out)
+	return out
+}
+
 // c18Detaint replaces the five special characters (they only occur inside taint tokens) by '-':
 // the twin document has the same shape, the same file keys and the same sort order.
 func c18Detaint(text string) string {
@@ -491,6 +568,9 @@ func c18PageBatch(c *Ctx, lo, hi int, seenHit map[string]bool, cover map[string]
 	}
 	for i := lo; i < hi; i++ {
 		d := c18Generate(c.R, "taint", year, 0)
+		for kv, n := range d.Variants {
+			cover["variant:"+kv] += n
+		}
 		o := c18RandOpts(c.R)
 		o.Living = []string{"show", "hide", "placeholder"}[i%3]
 		mk(d, &c18Job{Kind: "publish", Gedcom: []byte(d.Text), Opts: o, Jobs: 1 + c.R.Intn(3)}, "publish "+o.String())
@@ -605,7 +685,7 @@ func c18PageBatch(c *Ctx, lo, hi int, seenHit map[string]bool, cover map[string]
 	}
 	for i, p := range pages {
 		if twins[i] != nil {
-			reqs = append(reqs, "skeleton "+hexs(string(p.data)), "skeleton "+hexs(string(twins[i])))
+			reqs = append(reqs, "structure "+hexs(string(p.data)), "structure "+hexs(string(twins[i])))
 		}
 	}
 	outs, err := c18LeanBatch(c.Driver, reqs)
@@ -637,8 +717,11 @@ func c18PageBatch(c *Ctx, lo, hi int, seenHit map[string]bool, cover map[string]
 		k += 2
 		nTwin++
 		if a != b {
-			c.Oracle(firstKey[i], "the structure of the "+p.kind+" page depends on the values in the file (tokens of the page differ from its de-tainted twin)",
-				mkIn(p), a, b+" (same document with < > \" ' & replaced by -)")
+			what := "the structure of the " + p.kind + " page depends on the values in the file (tokens of the page differ from its de-tainted twin)"
+			if inj := c18InjectedAttrs(a, b); len(inj) > 0 {
+				what = "a value in the file injects an attribute into the " + p.kind + " page: " + strings.Join(inj, ", ")
+			}
+			c.Oracle(firstKey[i], what, mkIn(p), a, b+" (same document with < > \" ' & replaced by -)")
 		}
 	}
 	c.Dist["page:compared-with-twin"] += nTwin
